@@ -449,10 +449,50 @@ func (c *Ctx) chainLacksKey(ch cbChain, key string) (bool, string) {
 			for _, cs := range sites {
 				work = append(work, item{cs.Call.Common().Args[paramIndex(x)], cs.Call, it.d + 1})
 			}
-		case *ssa.Call, *ssa.MakeMap:
+		case *ssa.Call, *ssa.MakeMap, *ssa.Extract:
 			// a map value created here: delete(m,key) must dominate the hand-over and no later store of key
 			del := false
 			vin := v.(ssa.Instruction)
+			retIdx := 0
+			var tupleCall *ssa.Call
+			if ex, isEx := v.(*ssa.Extract); isEx {
+				tc, isCall := ex.Tuple.(*ssa.Call)
+				if !isCall {
+					return false, "update map origin not understood: " + c.canon(v)
+				}
+				tupleCall, retIdx = tc, ex.Index
+			}
+			// the key removed by a helper handed the map (takeCreateFields(updates)): a call, dominating the hand-over, of
+			// a module function that deletes the key from that parameter on every path
+			for _, hc := range callsIn(vin.Parent()) {
+				h := calleeOf(hc.Common())
+				if h == nil || !c.InModule(h) || h.Blocks == nil {
+					continue
+				}
+				if !(instrDominates(hc, it.at) || (hc.Block() == it.at.Block() && instrIndex(hc) < instrIndex(it.at))) {
+					continue
+				}
+				for pi, a := range hc.Common().Args {
+					if resolve(a) != v || pi >= len(h.Params) {
+						continue
+					}
+					for _, dc := range callsNamed(h, "builtin delete") {
+						da := dc.Common().Args
+						if k, ok := constString(da[1]); !ok || k != key || resolve(da[0]) != ssa.Value(h.Params[pi]) {
+							continue
+						}
+						all := true
+						for _, hr := range returnsOf(h) {
+							if !(dc.Block().Dominates(hr.Block())) {
+								all = false
+							}
+						}
+						if all {
+							del = true
+						}
+					}
+				}
+			}
 			for _, call := range callsNamed(vin.Parent(), "builtin delete") {
 				a := call.Common().Args
 				if resolve(a[0]) == v {
@@ -471,12 +511,55 @@ func (c *Ctx) chainLacksKey(ch cbChain, key string) (bool, string) {
 			}
 			if !del {
 				// a module constructor (newTaskFlagUpdates): the key may be removed inside it, before each return
-				if cl, isCall := v.(*ssa.Call); isCall {
-					if cal := calleeOf(&cl.Call); cal != nil && cal.Blocks != nil && c.InModule(cal) && cal.Signature.Results().Len() == 1 {
-						for _, r := range returnsOf(cal) {
-							work = append(work, item{returnedValue(r, 0), r, it.d + 1})
+				cl, isCall := v.(*ssa.Call)
+				if tupleCall != nil {
+					cl, isCall = tupleCall, true
+				}
+				if isCall {
+					if cal := calleeOf(&cl.Call); cal != nil && cal.Blocks != nil && c.InModule(cal) && retIdx < cal.Signature.Results().Len() {
+						for _, r := range c.nonFailingReturns(cal) {
+							if retIdx >= len(r.Results) {
+								continue
+							}
+							rv := returnedValue(r, retIdx)
+							// the helper hands back its own parameter after removing the key from it (takeCreateFields)
+							if p, isP := resolve(rv).(*ssa.Parameter); isP && p.Parent() == cal {
+								removed := false
+								for _, dc := range callsNamed(cal, "builtin delete") {
+									da := dc.Common().Args
+									if k, ok := constString(da[1]); ok && k == key && resolve(da[0]) == ssa.Value(p) && (dc.Block().Dominates(r.Block())) {
+										removed = true
+									}
+								}
+								if removed {
+									nOK++
+									continue
+								}
+							}
+							work = append(work, item{rv, r, it.d + 1})
 						}
 						continue
+					}
+					// an interface method (fieldSource.updates()): every implementation in the module
+					if cl.Call.IsInvoke() {
+						n := 0
+						for _, m := range c.Fns {
+							if m.Signature.Recv() == nil || m.Name() != cl.Call.Method.Name() || m.Blocks == nil || !c.InModule(m) {
+								continue
+							}
+							if !types.Identical(m.Signature.Results(), cl.Call.Method.Type().(*types.Signature).Results()) {
+								continue
+							}
+							n++
+							for _, r := range c.nonFailingReturns(m) {
+								if retIdx < len(r.Results) {
+									work = append(work, item{returnedValue(r, retIdx), r, it.d + 1})
+								}
+							}
+						}
+						if n > 0 {
+							continue
+						}
 					}
 				}
 				return false, fmt.Sprintf("map created at %s reaches the callback without delete(m,%q)", c.Pos(vin.Pos()), key)
